@@ -1,7 +1,7 @@
 /* encoder-side ghost state and oracle contracts (write-log model, -DQBA_WLOG -DQBA_OWNED=40) */
 /* A-UTF8: QString::toUtf8 returns a byte string determined by the string: length = utf8_len(id) in 0..QBA_MAX, content opaque */
 int __CPROVER_uninterpreted_utf8_len(int id);
-char gh_utf8_store[QBA_MAX];
+char *gh_utf8_store;   /* QBA_MAX unspecified bytes, allocated by the harness */
 #define UTF8_LEN(s) (__CPROVER_uninterpreted_utf8_len((s)->id))
 static inline void QString_toUtf8(QByteArray *r, const QString *s) { int n = UTF8_LEN(s); __CPROVER_assume(0 <= n && n <= QBA_MAX); QByteArray_ctor(r); r->n = n; r->vlen = n; r->src = gh_utf8_store; }
 static const QByteArray QByteArray_empty;
